@@ -38,7 +38,11 @@ type Prog struct {
 // short replaces the module path by "z" so that rule tables stay readable:
 // "(*z.fileStore).iterate", "z/sql.Parse".
 func short(s string) string {
-	return strings.ReplaceAll(s, modPath, "z")
+	s = strings.ReplaceAll(s, modPath, "z")
+	if len(aliasTypes) > 0 || len(aliasFuncs) > 0 {
+		s = applyAliases(s)
+	}
+	return s
 }
 
 func load(repo string, cgMode string, overlay map[string][]byte) (*Prog, error) {
@@ -86,6 +90,7 @@ func load(repo string, cgMode string, overlay map[string][]byte) (*Prog, error) 
 		P.ByPath[sp.Pkg.Path()] = sp
 	}
 	P.AllFns = ssautil.AllFunctions(prog)
+	computeAliases(prog, P.AllFns, verifDirFlag)
 	for fn := range P.AllFns {
 		if fn.Pkg == nil && fn.Parent() == nil {
 			// wrappers/thunks/instantiations
